@@ -225,8 +225,8 @@ def dumpstruct(
     if output not in ("print", "string"):
         raise ValueError(f"Invalid output argument: {output!r} (should be 'print' or 'string').")
 
-    if isinstance(obj, UnionProxy):
-        # A structure that is a member of a union
+    while isinstance(obj, UnionProxy):
+        # A structure that is a member of a union (of a union that is a member of a union, ...)
         obj = obj.__target__
 
     if isinstance(obj, Structure):
